@@ -50,6 +50,9 @@ func (g *srcGen) str(d int) string {
 			if g.r.Intn(3) == 0 && g.stmts {
 				hole = g.stmtList(d-1, 2)
 			}
+			if g.inLoop > 0 && g.r.Intn(3) == 0 {
+				hole = g.pick("break", "continue", "if "+g.expr(d-1)+" { break }", "if "+g.expr(d-1)+" { continue }; "+g.expr(d-1))
+			}
 			open, cl := "{", "}"
 			if g.r.Intn(3) == 0 {
 				open, cl = "{%", "%}"
@@ -319,7 +322,8 @@ var shapeFamilies = []string{
 	"i = 0; while i < 3 { i = i + 1; while 1 { break }; continue }",
 	"func fnA(n) { if n { return 1 }; return 2 }; fnA(0)",
 	"func fnA(n) { while 1 { return n } }; fnA(3)",
-	"`a{ if 1 { 2 } }b`", "`{% i = 0; while i < 2 { i = i + 1 } %}`", "`{x}{y}{ `in{z}` }`",
+	"`a{ if 1 { 2 } }b`", "i = 0; while i < 5 { i = i + 1; `a{% if i > 2 { break } %}` }; i", "i = 0; while i < 30 { i = i + 1; `{% continue %}` }; i",
+	"i = 0; while i < 4 { i = i + 1; `x{ if i == 2 { continue } }y{% break %}` }", "while x { if y { `{% if z { break } %}` } }", "while x { `{`{% continue %}`}` }", "`{% i = 0; while i < 2 { i = i + 1 } %}`", "`{x}{y}{ `in{z}` }`",
 	"x = 1; &y = x + d6; y", "&y = this.x + 1; &y.x = 5; y", "x ? 1, y ? 2, 1 ? 3",
 	"[1,2,3][0:2]", "arr = [1,2,3]; arr[0:1] = [9]; arr", "[2d6, 3]kh", "[1,2,3].kh(2)",
 	"^st力量60敏捷70", "^st 力量:60 敏捷=70", "^st力量+1d4", "^st 力量-=2, 敏捷+=3", "^st&手枪=1d6", "^st 属性*1.5:4", "^st 属性*:4", "^st'a b':3",
